@@ -404,6 +404,9 @@ func runC02(r *core.Run) {
 		mu.Unlock()
 	}
 	if r.Variant == "" {
+		// the whole workload once more in the GOARCH=386 build of this monitor (see ./check)
+		r.RunVariantChild("arch386@16", 30*time.Minute, false)
+		r.Obs("arch386_child", "run")
 		for _, v := range append([]string{"decfirst@3", "decfirst+rev@1", "rev@6", "warm@2", "atinit+burst@1", "atinit+burst@16", "atinit+burst@2", "imgfirst@4", "imgfirst+rev@16"}, burstVariants...) {
 			r.RunVariantChild(v, 10*time.Minute, false)
 		}
@@ -593,6 +596,32 @@ func c02ColorTypes(r *core.Run) {
 		if vals[i] != 0 && vals[i] != 1 {
 			vals[i] += jit
 		}
+	}
+	// channels at the ends of float32 (the largest finite value, both infinities, the smallest
+	// denormal) next to ordinary ones: clipping applies to them like to any other value
+	{
+		inf := float32(math.Inf(1))
+		ends := []float32{inf, -inf, math.MaxFloat32, -math.MaxFloat32, 1e-45, -1e-45, 0.5, 0, 1}
+		var n int64
+		for _, s := range libSpaces {
+			for _, x := range ends {
+				for _, y := range ends {
+					for _, rgb := range [][3]float32{{x, y, 0.25}, {0.75, x, y}, {y, 0.5, x}} {
+						for _, a := range []float32{1, 0.5, 1.0 / 1024} {
+							for _, entry := range []string{"ToNRGBA", "ToRGBA", "ToRGBA64"} {
+								cs := c02ColorCase{Space: s.Name, Entry: entry, RGB: rgb, Alpha: a}
+								n++
+								if bad, msg := c02CheckColor(cs); bad {
+									r.Violate("colour", s.Name+"/"+entry+"/ends-of-float32", msg, cs)
+								}
+							}
+						}
+					}
+				}
+			}
+		}
+		r.AddEvals(n)
+		r.NTCount(n)
 	}
 	a16 := []uint16{0, 1, 2, 255, 256, 257, 32767, 32768, 65534, 65535, uint16(rng.Intn(65536)), uint16(rng.Intn(65536))}
 	core.ParallelFor(len(libSpaces)*33, 16, func(job int) {
